@@ -80,9 +80,12 @@ def vary(nb, differing, variant):
     if "attachments" in differing:
         a = md[0].setdefault("attachments", {}) if b.nbformat_minor >= 1 else None
         if a is not None:
-            if variant % 2 and a:
-                a.pop(sorted(a)[0])
-            a["new.png"] = {"image/png": concretize.B64B}
+            if variant % 3 == 2 and a:
+                del md[0]["attachments"]          # the cell loses its attachments altogether (the key is optional)
+            else:
+                if variant % 2 and a:
+                    a.pop(sorted(a)[0])
+                a["new.png"] = {"image/png": concretize.B64B}
     if "metadata" in differing:
         which = variant % 3
         if which == 0:
